@@ -111,9 +111,24 @@ def gen_pair(rng):
         name, T = rtransform(rng)
         s2 = map_cmds(s1, T)
         kind = "image:" + name
-    elif k < 0.65:
+    elif k < 0.62:
         s2 = [(c, list(a)) for c, a in s1]
         kind = "identical"
+    elif k < 0.68:
+        # one outline is a prefix of the other (continued / closed), possibly translated
+        base = [(c, list(a)) for c, a in s1 if c != "Z"]
+        T = (1.0, 0.0, 0.0, 1.0, float(rng.choice([0, 0, 7, -3])), float(rng.choice([0, 0, 4])))
+        longer = map_cmds(base, T)
+        extra = rng.choice(["close", "line", "both"])
+        if extra in ("line", "both"):
+            longer.append(("L", [longer[-1][1][-2] + 5.0, longer[-1][1][-1] - 2.0]))
+        if extra in ("close", "both"):
+            longer.append(("Z", []))
+        s1 = base
+        s2 = longer
+        if rng.random() < 0.5:
+            s1, s2 = s2, s1
+        kind = "prefix"
     elif k < 0.8:
         s2 = base_outline(rng, arcs)
         kind = "unrelated"
